@@ -52,7 +52,7 @@ def self_test(pid):
     seeds = sorted(glob.glob(os.path.join(VERIF, "seeded", f"{pid}-m*")))
     harmless = [("rename-local-in-toposort", "autograd/util.py", "s/childless_nodes/ready_nodes/g"), ("reorder-independent-statements", "autograd/tracer.py", "s/    top_boxes = \\[\\]\\n    top_node_type = None/    top_node_type = None\\n    top_boxes = []/")]
     if pid == "C18":   # retunings of the checker that stay inside the contract's bands
-        harmless += [("EPS=1e-5", "autograd/test_util.py", "s/\nEPS = 1e-6/\nEPS = 1e-5/"), ("TOL=2e-6", "autograd/test_util.py", "s/\nTOL = 1e-6/\nTOL = 2e-6/"),
+        harmless += [("EPS=1e-5", "autograd/test_util.py", "s/\\nEPS = 1e-6/\\nEPS = 1e-5/"), ("TOL=2e-6", "autograd/test_util.py", "s/\\nTOL = 1e-6/\\nTOL = 2e-6/"),
                      ("relative-measure-|a|+|b|", "autograd/test_util.py", "s#abs(a - b) / abs(a + b) < RTOL#abs(a - b) / (abs(a) + abs(b)) < RTOL#")]
     # behaviour-preserving refactorings written by sub-agents (harmless/<region>-r<k>.diff): a rotating selection of 8 per property
     hd = sorted(glob.glob(os.path.join(VERIF, "harmless", "*.diff")))
